@@ -184,6 +184,19 @@ func genCrash(yield func(any)) {
 			yield(PkiIn{Tz: 0, Strat: strat, Files: []FileIn{certFile("root.yaml", c2, true), {Path: "p.yaml", Kind: "profile", Json: pj, Text: string(pj), Age: 300}}})
 		}
 	}
+	// (f) the end of the representable years, in zones east and west of UTC: never a panic, whatever is accepted
+	for _, tz := range []int{-43200, -3600, 0, 3600, 32400, 50400} {
+		for _, v := range []J{{"from": "9999-12-31", "duration": "1d"}, {"from": "9999-12-30", "duration": "1d"}, {"from": "9999-12-30", "duration": "2d"}, {"until": "9999-12-31"},
+			{"from": "9999-12-31", "until": "9999-12-31"}, {"from": "9999-01-01", "duration": "1y"}, {"from": "9998-12-31", "duration": "1y1d"}, {"from": "0001-01-01", "until": "0001-01-02"}, {"from": "0000-12-31", "duration": "1d"}} {
+			c := tinyCfg("Year", "", "")
+			c["validity"] = v
+			yield(PkiIn{Tz: tz, Strat: 9, Files: []FileIn{certFile("root.yaml", c, true)}})
+			pj := must(json.Marshal(J{"version": 1, "name": "p", "validity": v}))
+			c2 := tinyCfg("Year", "", "")
+			c2["profile"] = "p"
+			yield(PkiIn{Tz: tz, Strat: 9, Files: []FileIn{certFile("root.yaml", c2, true), {Path: "p.yaml", Kind: "profile", Json: pj, Text: string(pj), Age: 300}}})
+		}
+	}
 	// (d) real artifacts, partially stripped, x every strategy: produced by a first run inside the case
 	for n := 0; n < pick(200, 4000); n++ {
 		yield(PkiIn{Tz: 0, Strat: rng.Intn(32), Files: []FileIn{
